@@ -295,7 +295,16 @@ impl<'a> W2<'a> {
         let before = self.viol.len();
         self.compare_all(ci, &name);
         self.compare_worlds(&name);
-        let _ = before;
+        if prop == "C17" {
+            // a drop-ledger discrepancy produced by a Box operation is also C17's business
+            // ("runs the value's destructor exactly once when dropped")
+            let extra: Vec<Violation> = self.viol[before..]
+                .iter()
+                .filter(|v| v.prop == "C15")
+                .map(|v| Violation { prop: "C17".into(), sig: v.sig.replacen("C15", "C17", 1), op: v.op.clone(), at: v.at, detail: v.detail.clone() })
+                .collect();
+            self.viol.extend(extra);
+        }
         if !self.viol.is_empty() {
             return;
         }
